@@ -159,6 +159,22 @@ func checkViews(t failer, upper, lower uint64) {
 			t.Fatalf("NewUint128(LE %x, LittleEndian) = %s, %v (%s)", in, show(got), err, ctx)
 		}
 	}
+	// the byte form may be a window into a longer buffer (a field of a decoded
+	// message): what follows the window is not part of the number
+	for _, fill := range []byte{0xa5, 0xff, 0x01} {
+		buf := append(append(make([]byte, 0, len(le)+24), le...), bytes.Repeat([]byte{fill}, 24)...)
+		if got, err := scale.NewUint128(buf[:len(le)]); err != nil || !eq(got, upper, lower) {
+			t.Fatalf("NewUint128(LE %x as a window of a longer buffer filled with %#x) = %s, %v (%s)", le, fill, show(got), err, ctx)
+		}
+		buf = append(append(make([]byte, 0, len(le)+24), le...), bytes.Repeat([]byte{fill}, 24)...)
+		if got, err := scale.NewUint128(buf[:len(le)], binary.LittleEndian); err != nil || !eq(got, upper, lower) {
+			t.Fatalf("NewUint128(LE %x as a window of a longer buffer filled with %#x, LittleEndian) = %s, %v (%s)", le, fill, show(got), err, ctx)
+		}
+		buf = append(append(make([]byte, 0, len(be)+24), be...), bytes.Repeat([]byte{fill}, 24)...)
+		if got, err := scale.NewUint128(buf[:len(be)], binary.BigEndian); err != nil || !eq(got, upper, lower) {
+			t.Fatalf("NewUint128(BE %x as a window of a longer buffer filled with %#x, BigEndian) = %s, %v (%s)", be, fill, show(got), err, ctx)
+		}
+	}
 	be16 := make([]byte, 16)
 	copy(be16[16-len(be):], be)
 	for _, in := range [][]byte{be, be16} {
